@@ -43,6 +43,12 @@ type Rec struct {
 	Tag   string     `json:"tag,omitempty"`
 	Calls  []CallJ   `json:"calls,omitempty"`  // same: calls that must all give one answer
 	Exp    []ResJ    `json:"exp,omitempty"`    // same: the model's prediction per call (optional)
+	Family string    `json:"family,omitempty"` // cost
+	Cells  int64     `json:"cells,omitempty"`
+	Alts   int64     `json:"alts,omitempty"`
+	NTerms int       `json:"nterms,omitempty"`
+	Poly   bool      `json:"poly,omitempty"`
+	Order  []int     `json:"order,omitempty"`  // sched: goroutine to step, in order
 	Inv    string    `json:"inv,omitempty"`    // tableinv
 	Fam    int       `json:"fam,omitempty"`
 	Ids    []string  `json:"ids,omitempty"`
@@ -124,6 +130,9 @@ type replayer struct {
 	samples []json.RawMessage
 	tallies map[string]int
 	allVariants bool
+	costs       []Rec
+	conc        *ConcWorkload
+	concSeq     []Obs
 	accepted map[string]bool // acc records: the token-class sequences the model accepts
 	tokCfg   *Rec
 }
@@ -408,6 +417,20 @@ func (r *replayer) checkRec(rec *Rec, rng *rand.Rand) (calls int, nontrivial boo
 			}
 		}
 		nontrivial = rec.Off > 0
+	case "cost":
+		r.mu.Lock()
+		r.costs = append(r.costs, *rec)
+		r.mu.Unlock()
+	case "sched":
+		if r.conc == nil {
+			bad("no-workload", "", "", nil, "", "sched record without -calls")
+			break
+		}
+		for _, p := range replaySchedule(r.conc, rec.Order, r.concSeq) {
+			r.report(Mismatch{Prop: r.prop, What: p.What, Fn: "concurrent workload", Expr: fmt.Sprint(rec.Order), Expected: "the sequential results, untouched arguments, the specified stage sequence", Observed: p.Detail, Rec: rec})
+		}
+		calls += len(r.conc.Calls)
+		nontrivial = true
 	case "tableinv":
 		r.report(Mismatch{Prop: r.prop, What: "table-" + rec.Inv, Fn: "spdxlicenses.LicenseRanges", List: rec.Ids,
 			Expected: "well-formed family table (C11 clause " + rec.Inv + ")", Observed: map[string]interface{}{"family": rec.Fam, "ids": rec.Ids}, Rec: rec})
@@ -454,11 +477,29 @@ func cmdReplay(args []string) int {
 	workers := fs.Int("workers", 16, "")
 	reps := fs.Int("reps", 1, "substitution rounds for records containing OTHER")
 	allVar := fs.Bool("allvariants", false, "token space: all four renderings per sequence (thorough)")
+	callsPath := fs.String("calls", "", "concurrent workload (JSON) for sched records")
 	_ = fs.Parse(args)
 
 	t := loadTables()
 	r := &replayer{prop: *prop, anchor: t.Active[0], byKind: map[string]int64{}, tallies: map[string]int{}, accepted: map[string]bool{}}
 	r.allVariants = *allVar
+	if *callsPath != "" {
+		b, err := os.ReadFile(*callsPath)
+		if err != nil {
+			fmt.Fprintln(os.Stderr, err)
+			return 2
+		}
+		var w ConcWorkload
+		if err := json.Unmarshal(b, &w); err != nil {
+			fmt.Fprintln(os.Stderr, err)
+			return 2
+		}
+		r.conc = &w
+		m := newSharedMem(w.Mem)
+		for _, c := range w.Calls {
+			r.concSeq = append(r.concSeq, runCall(c, m))
+		}
+	}
 	for _, id := range t.Active {
 		if id == "MIT" {
 			r.anchor = id
@@ -574,7 +615,7 @@ func cmdReplay(args []string) int {
 	summary := map[string]interface{}{
 		"property": *prop, "records": r.recs, "calls": r.calls, "byKind": r.byKind,
 		"nontrivial": r.nontrivial, "mismatches": r.mism, "mismatchCount": r.nMism,
-		"decodeErrors": decodeErrs, "samples": r.samples, "tallies": r.tallies, "seed": *seed, "tokenSequences": tokSeqs, "accepted": len(r.accepted),
+		"decodeErrors": decodeErrs, "samples": r.samples, "tallies": r.tallies, "seed": *seed, "tokenSequences": tokSeqs, "accepted": len(r.accepted), "costs": r.costs,
 	}
 	b, _ := json.Marshal(summary)
 	if *out != "" {
